@@ -256,7 +256,7 @@ func TestC19Omitted(t *testing.T) {
 		}
 	}
 	h.Run(t, h.Spec[OmitCase]{
-		Property: "C19", Name: "omitted", Quick: 1600, Thorough: 32000, Timeout: 300e9,
+		Property: "C19", Name: "omitted", Quick: 800, Thorough: 32000, Timeout: 300e9,
 		Rule: fmt.Sprintf("%d (command template, omitted scalar option) pairs over %d templates x generated data sets x seed: the command is run without the option and with --option=<default printed by the help text> in new processes (same seed, same stdin), in half of the cases together with 1-2 other options of the command set to non-default values in both runs; exit status, stdout and all written files must be identical; templates whose baseline is not reproducible are skipped; non-trivial = the baseline run exits with status 0 and produces output", len(pairs), len(clit.Templates())),
 		Gen: func(t *rapid.T, thorough bool) OmitCase {
 			p := pairs[rapid.IntRange(0, len(pairs)-1).Draw(t, "pair")]
@@ -285,4 +285,58 @@ func TestC19Omitted(t *testing.T) {
 			return o.Code == 0 && size > 0, []string{"flag:" + c.Flag, fmt.Sprintf("extra-options:%d", len(c.Extra))}
 		},
 	})
+}
+
+// ---------------------------------------------------------------------------------------
+// (b') the same relation for EVERY (template, omitted option) pair, once per run (no extra options),
+// on data sets derived from VERIF_SEED: the random exploration above cannot be relied upon to
+// visit each of the ~1500 pairs.
+
+func TestC19OmittedAll(t *testing.T) {
+	r := h.NewRecorder(t, "C19", "omitted-all", "every (command template, omitted scalar option) pair of the template table, once per run, on a data set generated from VERIF_SEED: the command without the option and with --option=<documented default> must give identical exit status, stdout and files; non-trivial = the baseline run exits with status 0 and produces output")
+	var rc OmitCase
+	if replaying, mine := r.ReplayCase(&rc); replaying {
+		if mine {
+			r.Replayed(checkOmit(rc))
+		}
+		return
+	}
+	if !cli.Available() {
+		t.Fatalf("gotree binary not built")
+	}
+	dsgen := rapid.Custom(func(t *rapid.T) clit.Dataset { return clit.GenDataset(t) })
+	var sets []clit.Dataset
+	for i := 0; i < 3; i++ {
+		sets = append(sets, dsgen.Example(int(h.Seed())*100+i))
+	}
+	k := 0
+	for _, tp := range clit.Templates() {
+		for _, f := range omittable(tp) {
+			k++
+			if k%h.NShards() != h.Shard() {
+				continue
+			}
+			c := OmitCase{Template: tp.Name, Flag: f.Name, Data: sets[k%len(sets)], Seed: h.Seed() + int64(k)}
+			var err error
+			gerr := r.Guard(map[string]any{"template": c.Template, "flag": c.Flag}, 300e9, func() error {
+				err = checkOmit(c)
+				return nil
+			})
+			if gerr != nil {
+				err = gerr
+			}
+			o := clit.Run(tp, c.Data, c.Seed, 0)
+			size := len(o.Stdout)
+			for _, v := range o.Files {
+				size += len(v)
+			}
+			r.Eval(map[string]any{"template": c.Template, "flag": c.Flag}, o.Code == 0 && size > 0, "flag:"+c.Flag)
+			if err != nil {
+				r.Fail(c, "%v", err)
+			}
+		}
+	}
+	if h.NShards() == 1 {
+		r.Exhaustive()
+	}
 }
